@@ -220,6 +220,7 @@ class TypeEngine:
         self.in_sites: Dict[Tuple[str, int], Set[Tuple]] = {}
         self.op_targets: Dict[Tuple[str, int], Set[str]] = {}  # operator / protocol dispatch
         self.anomalies: List[Tuple[str, int, str]] = []  # (fn qual, lineno, text)
+        self.unresolved_calls: Set[Tuple[str, str, str]] = set()
         self.fn_by_qual: Dict[str, FunctionInfo] = {f.qual: f for f in repo.functions()}
         self.class_by_name: Dict[str, ClassInfo] = {}
         for c in repo.classes():
@@ -274,6 +275,7 @@ class TypeEngine:
         self.final = True
         self.done_iter = set()
         self.anomalies = []
+        self.unresolved_calls = set()
         for fi, args in entries:
             self.call(fi, args)
         self.final = False
@@ -349,6 +351,13 @@ class TypeEngine:
                 return STR
         if isinstance(node, ast.UnaryOp):
             return self._const_type(node.operand)
+        if isinstance(node, ast.Name):
+            import builtins as _b
+            if node.id in BUILTIN_EXC or (hasattr(_b, node.id) and isinstance(getattr(_b, node.id), type)
+                                          and issubclass(getattr(_b, node.id), BaseException)):
+                return S(("cls", node.id))  # `exc=TypeError`: an exception class as default
+            if hasattr(_b, node.id):
+                return S(("builtin", node.id))
         return unknown("default")
 
     def is_class_tag(self, t) -> bool:
@@ -483,6 +492,15 @@ class Frame:
 
     def optarget(self, node, m):
         self.eng.op_targets.setdefault((self.fi.qual, id(node)), set()).add(m.qual)
+
+    def _unresolved_callee(self, e):
+        """a call through a variable / table entry whose callee the type inference cannot name (table-driven dispatch built at
+        import time, callbacks, lambdas): everything downstream would be guesswork -- recorded, and the analysis stops"""
+        if self.eng.final and not self.eng.suppress and isinstance(e.func, (ast.Name, ast.Subscript)) \
+                and ".visualization" not in self.fi.module.name and not self.fi.module.name.endswith("utils.solver"):
+            # (utils/solver.py applies its `count(f, row)` / `index(f, row)` helpers to lambdas: numbers in, numbers out; C16 is
+            # not claimed)
+            self.eng.unresolved_calls.add((self.fi.where(e), self.fi.short, ast.unparse(e)[:60]))
 
     def anomaly(self, node, text):
         if self.eng.final and not self.eng.suppress:
@@ -1643,12 +1661,16 @@ class Frame:
             if kind == "cmeth":
                 return self.container_method(t[1], t[2], pos, e, env)
             if kind == "Unknown":
+                self._unresolved_callee(e)
                 return S(t)
         if t == "lambda":
+            self._unresolved_callee(e)
             return unknown("result of local callable")
         if t == "type":
             return NUM  # unify_types: result_type(i) -- a numeric type by its documentation
         if t == "Ext":
+            if isinstance(e.func, ast.Subscript) or (isinstance(e.func, ast.Name) and self.fi.resolve(e.func.id) is None):
+                self._unresolved_callee(e)  # a local variable / table entry of unknown provenance is called
             return EXT
         if eng.is_class_tag(t):
             m = eng.class_by_name[t].lookup("__call__")
